@@ -868,6 +868,28 @@ fn generate(rng: &mut Rng, tier: &str, w: &mut CaseWriter) {
 
 fn gen_all(rng: &mut Rng, thorough: bool, div: u64, w: &mut CaseWriter) {
     let q = |x: u64| (x / div).max(1);
+    {
+        // fused lazy iterator (modelled): the GFF attributes column
+        const ALPHA: &[u8] = b"==;;,,%%.*aZ09 fF2\t&_-";
+        if div == 1 {
+            for c in ["", ".", "*", "=", ";", ",", "a", "a=", "=b", "a=b", "a=b;", "a=b;c", "a=b;c;d=e", "ID=1;Name", "a=1,2;b",
+                      "a=b;;c=d", "a=%41,%2C;x", "%3D=1", "a=b=c;=;", ";a=b", "a==;b", "..", ".;", "a=.;.", "a=1,,2", "a=%;b=%4", "a=%zz;q"] {
+                w.push("gffit", vec![hex(c.as_bytes())]);
+            }
+        }
+        for _ in 0..q(if thorough { 6000 } else { 500 }) {
+            let n = rng.below(25) as usize;
+            let mut col: Vec<u8> = (0..n).map(|_| ALPHA[rng.below(ALPHA.len() as u64) as usize]).collect();
+            if rng.chance(1, 16) && !col.is_empty() {
+                let i = rng.below(col.len() as u64) as usize;
+                col[i] = [0u8, 0x80, 0xff, 0x0d, 0x7f][rng.below(5) as usize];
+            }
+            while col.last() == Some(&0x0d) {
+                col.pop();
+            }
+            w.push("gffit", vec![hex(&col)]);
+        }
+    }
     if div == 1 {
         // input-driven recursion depth (each case runs in its own child process)
         for place in ["ids", "fmtkey"] {
@@ -1260,6 +1282,62 @@ fn run_csiq(ms: u64, d: u64, id: u64, s: u64, e: u64) -> Obs {
     }
 }
 
+/// gff Record::attributes().iter() driven to its end (bounded): every item in order.
+/// obs = `O<hex tag>:S<hex>` / `O<hex tag>:A<hex>,<hex>..` / `E`, joined by ';' (`_` = no item).
+fn run_gffit(col: Vec<u8>) -> Obs {
+    use noodles_gff as gff;
+    let shown = hex(&col);
+    let bound = 16 * (col.len() + 64);
+    let ran = watchdog(move || {
+        let mut data = b"sq0\t.\tgene\t1\t2\t.\t+\t.\t".to_vec();
+        data.extend_from_slice(&col);
+        data.push(b'\n');
+        let mut r = gff::io::Reader::new(&data[..]);
+        let mut line = gff::Line::default();
+        match r.read_line(&mut line) {
+            Ok(n) if n > 0 => {}
+            _ => return "NoLine".to_string(),
+        }
+        let rec = match line.as_record() {
+            Some(Ok(rec)) => rec,
+            _ => return "NoRecord".to_string(),
+        };
+        let attrs = rec.attributes();
+        let mut items = Vec::new();
+        for (i, x) in attrs.iter().enumerate() {
+            if i >= bound {
+                return "runaway:attributes-iter".to_string();
+            }
+            items.push(match x {
+                Ok((t, gff::record::attributes::field::Value::String(v))) => format!("O{}:S{}", hex(&t), hex(&v)),
+                Ok((t, gff::record::attributes::field::Value::Array(a))) => {
+                    format!("O{}:A{}", hex(&t), a.iter().map(|e| hex(&e)).collect::<Vec<_>>().join(","))
+                }
+                Err(_) => "E".to_string(),
+            });
+        }
+        if items.is_empty() { "_".to_string() } else { items.join(";") }
+    });
+    match ran {
+        Ran::Done(s) if s.starts_with("runaway:") => Obs::fail("Hang", "hang-gff-attributes-iter", format!("gffit {shown}")),
+        Ran::Done(s) => {
+            // the property on this case: at most one error, and it is the last item
+            let errs = s.split(';').filter(|x| *x == "E").count();
+            if errs > 1 || (errs == 1 && !s.ends_with('E')) {
+                Obs::fail(s, "gff-attributes-iter-not-fused", format!("gffit {shown}"))
+            } else {
+                Obs::ok(s, true)
+            }
+        }
+        Ran::Panic { file, line, msg } => {
+            let tag = site_tag("gff", &file, line, &msg);
+            Obs::fail("Panic", &tag, format!("{file}:{line}: {msg} | gffit {shown}"))
+        }
+        Ran::Hang(_) => Obs::fail("Hang", "hang-gff-attributes-iter", format!("gffit {shown}")),
+        Ran::TooLarge(n, _) => Obs::fail("TooLarge", "alloc-gff", format!("{n} bytes | gffit {shown}")),
+    }
+}
+
 fn run_rfreq(table: Vec<u8>) -> Obs {
     // order 0, compressed size, uncompressed size 1 => decode() reads the table, builds the cumulative
     // table and the lookup table, reads the 4 states (each 2^23) and decodes one symbol
@@ -1395,6 +1473,7 @@ fn run(c: &Case) -> Obs {
         }
         "csiq" => run_csiq(c.u(0), c.u(1), c.u(2), c.u(3), c.u(4)),
         "rfreq" => run_rfreq(c.b(0)),
+        "gffit" => run_gffit(c.b(0)),
         "nest" => run_nest(c.args[0].clone(), c.args[1].clone(), c.u(2) as usize),
         k => Obs::fail("-", "harness-unknown-kind", k),
     }
